@@ -1,6 +1,8 @@
 package issues
 
 import (
+	"maps"
+	"slices"
 	"sort"
 
 	"github.com/nyaruka/gocommon/i18n"
@@ -58,8 +60,9 @@ func Check(sa flows.SessionAssets, flow flows.Flow, tpls []flows.ExtractedTempla
 		issues = append(issues, i)
 	}
 
-	for _, fn := range RegisteredTypes {
-		fn(sa, flow, tpls, refs, report)
+	// check in a stable order so that issues on the same node always come out in the same order
+	for _, name := range slices.Sorted(maps.Keys(RegisteredTypes)) {
+		RegisteredTypes[name](sa, flow, tpls, refs, report)
 	}
 
 	// sort issues by node order
